@@ -5,6 +5,8 @@ CONSTANTS
   InitBals <- TEmpty
   Amounts <- TEmpty
   FaultKinds <- TEmpty
+  AdvChannels <- TEmpty
+  ProofSound = TRUE
   RevKinds <- TEmpty
   MaxPays = 100000
   Aspects = {}
@@ -14,7 +16,7 @@ CONSTANTS
   NZero <- TZero
   MaxBal <- TMaxBal
   UMax <- TUMax
-INVARIANTS CanClose LedgerShape Conservation HeldSigsValid TagSeparation IssuedMatchesLedger TokenOnlyAfterRevocation ClosedOnUnrevoked MerchantExposureBounded RevealedAgree
+INVARIANTS CanClose LedgerShape Conservation HeldSigsValid TagSeparation IssuedMatchesLedger TokenOnlyAfterRevocation ClosedOnUnrevoked MerchantExposureBounded NoDoubleSpend RevealedAgree
 PROPERTIES RefusedIsInert ReleaseOnlyOnAccept RefusedStartInert TokenIffOpens RestoreStutters ReplayRefused FaultRefused HonestAccepted
 POSTCONDITION Accepted
 CHECK_DEADLOCK FALSE
